@@ -91,6 +91,7 @@ impl Store {
     }
 
     pub fn set_message(&self, id: &str, status: MessageStatus) -> Result<()> {
+        let _lock = self.lock_messages();
         if let Ok(mut message) = self.messages().find(id) {
             message.status = status;
             message.update_time = utils::time::time_millis();
@@ -110,6 +111,7 @@ impl Store {
                 .push(Expr::eq("tid", tid.to_string())),
         );
         let collection = self.messages();
+        let _lock = self.lock_messages();
         if let Ok(messages) = collection.query(&q) {
             for m in messages.rows.iter() {
                 let mut m = m.clone();
@@ -142,11 +144,20 @@ impl Store {
         let collection = self.messages();
         if let Ok(messages) = collection.query(&q) {
             for m in messages.rows.iter() {
-                let mut message = m.clone();
+                // the record can have been acknowledged or closed since the query: it is read
+                // again and written back while nobody else changes it
+                let lock = self.lock_messages();
+                let Ok(mut message) = collection.find(&m.id) else {
+                    continue;
+                };
+                if message.status != MessageStatus::Created {
+                    continue;
+                }
                 message.update_time = utils::time::time_millis();
                 if message.retry_times < max_message_retry_times {
                     message.retry_times += 1;
                     let _ = collection.update(&message);
+                    drop(lock);
                     f(&message.into());
                 } else {
                     // mark the message as error
@@ -162,6 +173,7 @@ impl Store {
     pub fn resend_error_messages(&self) -> Result<()> {
         let collection = self.messages();
         let q = Query::new().push(Cond::and().push(Expr::eq("status", MessageStatus::Error)));
+        let _lock = self.lock_messages();
         if let Ok(messages) = collection.query(&q) {
             for m in messages.rows.iter() {
                 let mut message = m.clone();
